@@ -171,7 +171,7 @@ class Bits(object):
         "extract bit integer value (0 or 1) at index i."
         if 0 <= i < self.__sz:
             return (self.ival>>i)&0x1
-        elif 0<= -i <= self.__sz:
+        elif 0< -i <= self.__sz:
             return (self.ival>>(self.__sz+i))&0x1
         else:
             raise IndexError
@@ -302,7 +302,7 @@ class Bits(object):
         if isinstance(i,int):
             assert v in (0,1)
             if   0<= i< self.__sz   : p=i
-            elif 0<=-i<(self.__sz+1): p=self.__sz+i
+            elif 0<-i<(self.__sz+1): p=self.__sz+i
             else: raise IndexError
             if v==0: self.ival &= (self.mask^((0x1)<<p))
             if v==1: self.ival |= (0x1)<<p
